@@ -53,6 +53,19 @@ def main():
 def run_one(job):
     res = dict(job={k: job[k] for k in ('check', 'fn', 'params', 'mode')}, ok=False)
     t0 = time.time()
+    # hard backstop: a z3 nonlinear query can ignore rlimit/timeout; the CPU budget is only checked between queries.
+    # z3 releases the GIL, so this timer still fires and ends the worker; the driver then counts the job as undecided.
+    import threading
+    dog = threading.Timer(3 * float(job.get('wall_s') or 300) + 120, lambda: os._exit(17))
+    dog.daemon = True
+    dog.start()
+    try:
+        return _run_one(job, res, t0)
+    finally:
+        dog.cancel()
+
+
+def _run_one(job, res, t0):
     try:
         mod = importlib.import_module('checks.' + job['check'])
         fn = getattr(mod, job['fn'])
